@@ -171,6 +171,22 @@ CHECKS = {
         TRUSTED + "; with cutoff/tilt the Pearson value itself is not recomputed (no exact filtered DFT in TLC), only the relations",
         "DESIGN.md 4/C07",
     ),
+    "C05": (
+        "model_checking",
+        "spec/AlignSearch.tla models where each model's translational search can end: the integer arg-max may be ANY cell "
+        "of the cropped landscape and the refined arg-max ANY point of the clipped mesh (ZNCC/NCC/FSC) or PCC window, which "
+        "is exactly 'for every sub-volume, including noise'; TLC proves InRange, NonEmpty (cannot run out of candidates), "
+        "ZeroReachable and EdgeReachable for every limit on the 1/100-px lattice in [0, 3.3] px plus large ones. Conformance "
+        "is trace validation: ~22k configurations enumerated by TLC (4 models x noise/zero/constant/unrelated/beyond-range "
+        "data x zero/sub-pixel/off-grid/anisotropic/larger-than-box limits x boxes >= 4 x rotation search x model/loader/"
+        "multi-template/group drivers, scalar/tuple/nm limits) are run with the recorder on and EVERY align return and "
+        "write-back is judged by TLC (Trace_Align.tla: NoRaise, Finite, InRange, Decode, LabelOK, Displacement in the "
+        "molecule frame, Orientation, Features); the thorough tier also validates the repository's own test-suite run "
+        "under the recorder.",
+        "TLA+ spec AlignSearch.tla model-checked by TLC; events recorded from real executions (own drivers and the repo's tests) validated by TLC (Trace_Align.tla)",
+        TRUSTED + "; the recorder of harness/recorder.py wraps public methods from outside the repo; 1e-3 px fixed point",
+        "DESIGN.md 4/C05",
+    ),
 }
 
 REASON_TODO = "check not built yet in this round (planned: see DESIGN.md section 4)"
